@@ -10,45 +10,7 @@ def _pref(state, name):
     return c[0] if c else None
 
 
-def root_cause_labels(evs, off):
-    """LABELS ONLY (used to key known findings; the verdict was already given by the TLA+ spec).
-    Walk the told history up to the refused observation at evs[off] and name the situations of the last
-    batch that are the documented root causes in notes/C44.md:
-      winner-renamed-away        the preferred claimant of a contested name was updated to another name
-      renamed-into-shadow        an endpoint that carried state on its name was updated to a name on which it
-                                 is not the preferred claimant
-      winner-removed+shadowed-op the preferred claimant of a contested name was removed in the same batch as
-                                 an update/removal of another claimant of that name
-      stale-shadow-copy          the preferred claimant of a name was removed while an endpoint that used to be
-                                 shadowed on that name, and has since been updated away from it, is still live
-    """
-    cur, prev = {}, {}
-    shadow_copy = {}            # id -> name of the copy the implementation keeps for a shadowed endpoint
-    batch = []
-    for i, e in enumerate(evs[:off + 1]):
-        ev = e["ev"]
-        if ev == "update":
-            k = tuple(e["id"])
-            cur[k] = e["name"]
-            batch.append(("u", k))
-        elif ev == "remove":
-            k = tuple(e["id"])
-            cur.pop(k, None)
-            batch.append(("r", k))
-        elif ev == "flush":
-            if i == off:
-                break
-            touched = {k for _, k in batch}
-            for k in list(shadow_copy):
-                if k not in cur:
-                    del shadow_copy[k]                       # removed: the copy is dropped
-                elif _pref(cur, cur[k]) == k and k not in touched:
-                    del shadow_copy[k]                       # promoted after the winner went away
-            for k, n in cur.items():
-                if _pref(cur, n) != k:
-                    shadow_copy[k] = n                       # (re)shadowed: copy overwritten
-            prev, batch = dict(cur), []
-    touched = {k for _, k in batch}
+def _batch_labels(prev, cur, touched, shadow_copy):
     labels = set()
     for x, n in prev.items():
         winner = _pref(prev, n) == x
@@ -61,15 +23,78 @@ def root_cause_labels(evs, off):
         if x not in cur and winner:
             if any(y in touched for y in others_prev):
                 labels.add("winner-removed+shadowed-op")
-            if any(b != x and b in cur and m == n and prev.get(b) != n and _pref(prev, prev.get(b)) == b
+            if any(b != x and (b in cur or b in prev) and m == n and prev.get(b) != n
                    for b, m in shadow_copy.items()):
                 labels.add("stale-shadow-copy")
-    return sorted(labels)
+    return labels
+
+
+def root_cause_labels(evs, off):
+    """LABELS ONLY (used to key known findings; the verdict was already given by the TLA+ spec).
+    Walk the told history up to the refused observation at evs[off] and name the situations, documented as
+    root causes in notes/C44.md, that occur in the last batch (-> first result) or occurred in an earlier batch
+    whose observation was still right but may have left corrupt hidden state (-> second result):
+      winner-renamed-away        the preferred claimant of a contested name was updated to another name
+      renamed-into-shadow        an endpoint that carried state on its name was updated to a name on which it
+                                 is not the preferred claimant
+      winner-removed+shadowed-op the preferred claimant of a contested name was removed in the same batch as
+                                 an update/removal of another claimant of that name
+      stale-shadow-copy          the preferred claimant of a name was removed while an endpoint that used to be
+                                 shadowed on that name, and has since been updated away from it, still has its
+                                 old shadowed copy inside the manager
+    """
+    cur, prev = {}, {}
+    shadow_copy = {}            # id -> name of the copy the implementation keeps for a shadowed endpoint
+    batch = []
+    earlier = set()
+    for i, e in enumerate(evs[:off + 1]):
+        ev = e["ev"]
+        if ev == "update":
+            k = tuple(e["id"])
+            cur[k] = e["name"]
+            batch.append(("u", k))
+        elif ev == "remove":
+            k = tuple(e["id"])
+            cur.pop(k, None)
+            batch.append(("r", k))
+        elif ev == "flush":
+            touched = {k for _, k in batch}
+            labels = _batch_labels(prev, cur, touched, shadow_copy)
+            if i == off:
+                return sorted(labels), sorted(earlier)
+            earlier |= labels
+            for k in list(shadow_copy):
+                if k not in cur:
+                    del shadow_copy[k]                       # removed: the copy is dropped
+                elif shadow_copy[k] == cur[k] and _pref(cur, cur[k]) == k and k not in touched:
+                    del shadow_copy[k]                       # promoted after the winner went away
+            for k, n in cur.items():
+                if _pref(cur, n) != k:
+                    shadow_copy[k] = n                       # (re)shadowed: copy overwritten
+            for k in touched:
+                # displaced by a smaller id arriving in the same batch in which k itself moved away: depending on
+                # the processing order k was shadowed on its old name for a moment and the copy survives
+                n = prev.get(k)
+                if n is not None and k in cur and cur[k] != n and any(j in touched and cur.get(j) == n and j < k for j in cur):
+                    shadow_copy.setdefault(k, n)
+            prev, batch = dict(cur), []
+    return [], sorted(earlier)
+
+
+LABEL_PRIORITY = ["winner-removed+shadowed-op", "stale-shadow-copy", "winner-renamed-away", "renamed-into-shadow"]
 
 
 def signature(t_id, evs, kind, off):
-    labels = root_cause_labels(evs, off)
-    return "%s:%s" % (kind.rstrip("+"), "+".join(labels) if labels else "unclassified")
+    """root-cause:<label> when the last batch contains one of the documented situations (the first in
+    LABEL_PRIORITY); latent:<label> when only an earlier batch did (its observation was still right, the
+    manager's hidden maps may already have been wrong); else unclassified:<kind of mismatch>."""
+    now, earlier = root_cause_labels(evs, off)
+    for l in LABEL_PRIORITY:
+        if l in now:
+            return "root-cause:" + l
+    if earlier:
+        return "latent:after-known-root-cause"
+    return "unclassified:" + kind.rstrip("+")
 
 
 def nontrivial(evs):
@@ -94,23 +119,34 @@ def nontrivial(evs):
 
 P = {
     "specdir": "epmgr",
-    "design": [],
+    "design": [{"module": "MC_I_EpMgr", "cfg": "MC_I_EpMgr_quick.cfg", "thorough_cfg": "MC_I_EpMgr_full.cfg",
+                "workers": 4, "timeout": 300, "thorough_timeout": 1500}],
     "gens": [
         {"module": "Gen_EpMgr", "cfg": "Gen_words3.cfg", "thorough_cfg": "Gen_words4.cfg", "workers": 2,
-         "max": 1500, "thorough_max": 60000, "timeout": 300, "thorough_timeout": 1500},
+         "max": 1200, "thorough_max": 40000, "timeout": 300, "thorough_timeout": 1500},
         {"module": "Gen_EpMgr", "cfg": "Gen_sim.cfg", "simulate": {"num": 150, "depth": 20},
          "thorough_simulate": {"num": 4000, "depth": 20}, "timeout": 300, "thorough_timeout": 900},
     ],
     "driver": {"overlay_pkg": PKG, "run": "^TestVerifMgrEpMgr$", "env": {"VERIF_REPS": "8"}},
     "rerun_env": {"VERIF_REPS": "24"},
+    "rerun_envs": [{"VERIF_REPS": "24"}, {"VERIF_REPS": "400"}, {"VERIF_REPS": "2000"}],
     "n_random": (300, 5000),
     "trace": {"module": "T_EpMgr", "cfg": "T_EpMgr.cfg", "heap": "4g"},
     "chunk": 60000,
     "multi_reject": True,
+    "selftest_allow_rejects": True,
     "signature": signature,
     "nontrivial": nontrivial,
-    "rule": "TODO",
-    "assumptions": [],
+    "rule": "behaviours = every word of 3 (thorough: 4) update/remove operations over 3 endpoint ids x 2 interface names x "
+            "{up,down} with an optional CompleteDeferredWork after each operation (TLC, exhaustive; thinned by seed), TLC "
+            "random walks of 16 operations over 4 ids x 3 names, and seeded random histories over 2-5 ids x 1-3 names with "
+            "profile/address variants, interface oper-state noise, iptables and nftables renderers, IPv4 and IPv6; every "
+            "trace with a multi-operation batch runs on 8 fresh managers in lock step (24 on re-execution) so that the "
+            "pending-map iteration order varies, and every distinct outcome is validated; a trace is non-trivial when at "
+            "some CompleteDeferredWork two live endpoints claim one interface name or an endpoint has changed its name",
+    "assumptions": ["endpoint ids are compared as strings by the code and as digit triples by the spec: the driver only "
+                    "uses single-digit components, for which both orders coincide",
+                    "interface oper state, policies/tiers and host endpoints are not inputs of this property"],
     "exhaustive": False,
 }
 
@@ -120,7 +156,81 @@ def run(ctx):
 
 
 def selftest(ctx):
-    return False
+    def first_simple(evs, pred):
+        """index of the first flush satisfying pred that directly follows [reset, update]"""
+        for i in range(2, len(evs)):
+            if evs[i]["ev"] == "flush" and evs[i - 1]["ev"] == "update" and evs[i - 2]["ev"] == "reset" and pred(evs[i - 1], evs[i]):
+                return i
+        return None
+
+    def drop_update(evs):
+        i = first_simple(evs, lambda u, f: True)
+        if i is not None:
+            return evs[:i - 1] + evs[i:]
+
+    def flip_admin_state(evs):
+        i = first_simple(evs, lambda u, f: True)
+        if i is not None:
+            evs[i - 1]["up"] = not evs[i - 1]["up"]
+            return evs
+
+    def other_endpoints_profile(evs):
+        i = first_simple(evs, lambda u, f: u["up"] and u["profiles"])
+        if i is not None:
+            for d in evs[i]["dps"]:
+                for c in d["chains"]:
+                    c["profiles"] = [x + "x" for x in c["profiles"]]
+            return evs
+
+    def lose_route(evs):
+        i = first_simple(evs, lambda u, f: u["up"] and f["dps"][0]["routes"])
+        if i is not None:
+            for d in evs[i]["dps"]:
+                d["routes"][0]["cidrs"] = d["routes"][0]["cidrs"][1:]
+                if not d["routes"][0]["cidrs"]:
+                    d["routes"] = d["routes"][1:]
+            return evs
+
+    def stale_chain(evs):
+        i = first_simple(evs, lambda u, f: True)
+        if i is not None:
+            for d in evs[i]["dps"]:
+                d["chains"].append({"chain": "cali-tw-calizz", "disabled": False, "profiles": []})
+            return evs
+
+    def lose_dispatch(evs):
+        i = first_simple(evs, lambda u, f: f["dps"][0]["disp_to"])
+        if i is not None:
+            for d in evs[i]["dps"]:
+                d["disp_to"] = d["disp_to"][1:]
+            return evs
+
+    def wrong_preference(evs):
+        # swap the ids of two endpoints claiming one name (different content) before the flush that shows the winner
+        for i in range(3, len(evs)):
+            a, b, f = evs[i - 2], evs[i - 1], evs[i]
+            if (evs[i - 3]["ev"] == "reset" and a["ev"] == "update" and b["ev"] == "update" and f["ev"] == "flush"
+                    and a["name"] == b["name"] and a["id"] != b["id"] and (a["up"] or b["up"])
+                    and (a["up"] != b["up"] or a["profiles"] != b["profiles"])):
+                a["id"], b["id"] = b["id"], a["id"]
+                return evs
+
+    return mgr_common.multi_selftest(ctx, P, [
+        ("drop_update", drop_update), ("flip_admin_state", flip_admin_state),
+        ("other_endpoints_profile", other_endpoints_profile), ("lose_route", lose_route),
+        ("stale_chain", stale_chain), ("lose_dispatch", lose_dispatch), ("wrong_preference", wrong_preference)],
+        n_random=120)
 
 
-MANIFEST = dict(text="TODO", design_ref="3.6 C44", technique="TODO")
+MANIFEST = dict(
+    text="EpMgr.tla defines F(current endpoint set): per interface name the chains, dispatch entries and routes of the "
+         "preferred claimant (smallest id in (orchestrator, workload, endpoint) order), routes only when admin-up, nothing "
+         "for unclaimed names. TLC checks an implementation-shaped model of resolveWorkloadEndpoints (all pending-map "
+         "processing orders) against F, generates every update/remove word up to a bound plus random walks; an in-package "
+         "overlay driver replays them on real endpointManagers (package mock tables/route table, recording dispatch maps, "
+         "8 lock-step fresh managers per batch) and TLC validates the full mock state logged after every "
+         "CompleteDeferredWork against F.",
+    design_ref="3.6 C44",
+    technique="TLA+ spec (EpMgr/I_EpMgr) + TLC; TLC-generated words replayed in-package (go test -overlay); trace "
+              "validation with TLC",
+)
